@@ -246,7 +246,7 @@ def go_test_overlay(files, run, timeout=600, tags=None, extra_env=None, extra_ar
     cmd = ["go", "test", "-v", "-vet=off", "-count=1", "-overlay", ov, "-run", run, "-timeout", "%ds" % timeout]
     if tags:
         cmd += ["-tags", tags]
-    cmd += list(extra_args)
+    cmd += list(extra_args or ())
     cmd += ["."]
     r = subprocess.run(cmd, cwd=REPO, env=env, stdout=subprocess.PIPE, stderr=subprocess.STDOUT, text=True,
                        timeout=timeout + 60)
